@@ -2,5 +2,5 @@
    of the Prometheus and Pyroscope selection statements).  Directives: ExtrOcamlBasic + ExtrOcamlString only. *)
 From Coq Require Import Extraction ExtrOcamlBasic ExtrOcamlString.
 From Qryn Require Import lib.Strs model.Sql model.SqlRender model.Logql model.LogqlPlan model.PromSelect model.PromSel model.ProfSel
-  model.SqlPieces model.SqlPiecesCases model.SqlPiecesSel model.Scans model.ScansTempo model.SqlPiecesTempo.
-Extraction "c10sel.ml" pcase_pieces fcase_pieces tv1_pieces.
+  model.SqlPieces model.SqlPiecesCases model.SqlPiecesSel model.Scans model.ScansTempo model.SqlPiecesTempo model.ScansPlanners model.SqlPiecesLabels.
+Extraction "c10sel.ml" pcase_pieces fcase_pieces tv1_pieces lv_pieces.
